@@ -284,6 +284,11 @@ func (wtr *JSONWtr) writeValue(p *node.Path, v val.Value) error {
 			if err := wtr.writeString(idtyStr); err != nil {
 				return err
 			}
+		case val.FmtEmpty:
+			// RFC 7951 section 6.9
+			if _, err := wtr._out.WriteString("[null]"); err != nil {
+				return err
+			}
 		case val.FmtString, val.FmtBinary, val.FmtBits:
 			if err := wtr.writeString(item.String()); err != nil {
 				return err
